@@ -90,7 +90,7 @@ def _t(ctx, f):
 UNARY = [('exp', 'R'), ('expm1', 'R'), ('log', 'pos'), ('log1p', 'gtm1'), ('sqrt', 'pos'), ('sin', 'R'), ('cos', 'R'), ('tan', 'tan'), ('arcsin', 'unit'),
          ('arccos', 'unit'), ('arctan', 'R'), ('sinh', 'R'), ('cosh', 'R'), ('tanh', 'R'), ('sign', 'nz'), ('absolute', 'nz'), ('square', 'R'),
          ('negative', 'R'), ('reciprocal', 'nz')]
-SPECIAL = [('erf', 'R'), ('erfi', 'R'), ('dawsn', 'R'), ('logit', 'logit'), ('expit', 'R'), ('gammaln', 'gamma'), ('psi', 'gamma')]
+SPECIAL = [('erf', 'R'), ('erfi', 'R'), ('dawsn', 'R'), ('logit', 'logit'), ('expit', 'R'), ('gammaln', 'gamma'), ('psi', 'gamma'), ('gammaln', 'gamma_neg'), ('psi', 'gamma_neg')]
 
 
 def _sweep(ctx, p, rng):
@@ -384,7 +384,11 @@ def _plain(ctx, p, rng):
         tests.append((nm + ':scalar', lambda nm=nm: getattr(algopy, nm)(xs), lambda nm=nm: getattr(np, nm)(xs)))
     for nm in ('erf', 'dawsn', 'logit', 'expit', 'gammaln', 'psi', 'erfi'):
         tests.append((nm, lambda nm=nm: getattr(algopy.special, nm)(x), lambda nm=nm: getattr(sp, nm)(x)))
+    xneg = -rng.integers(0, 3, size=shape) - rng.uniform(0.25, 0.75, size=shape)          # between the poles on the negative axis
+    for nm in ('gammaln', 'psi'):
+        tests.append((nm + ':negative-axis', lambda nm=nm: getattr(algopy.special, nm)(xneg), lambda nm=nm: getattr(sp, nm)(xneg)))
     tests += [
+        ('polygamma:negative-axis', lambda: algopy.special.polygamma(1, xneg), lambda: sp.polygamma(1, xneg)),
         ('polygamma', lambda: algopy.special.polygamma(1, x), lambda: sp.polygamma(1, x)), ('hyperu', lambda: algopy.special.hyperu(1.5, 2.25, x), lambda: sp.hyperu(1.5, 2.25, x)),
         ('minimum', lambda: algopy.minimum(x, y), lambda: np.minimum(x, y)), ('maximum', lambda: algopy.maximum(x, y), lambda: np.maximum(x, y)),
         ('sum', lambda: algopy.sum(x), lambda: np.sum(x)), ('prod', lambda: algopy.prod(y), lambda: np.prod(y)),
